@@ -93,6 +93,8 @@ def gen_strings(tier):
             f"{a} or {b} and {c}", f"{a} and {b} or {c}", f"{a} or {b} or {c}", f"{a} and {b} and {c}",
             ]
     out += LITERALS
+    # trailing commas in every bracket kind
+    out += [f"v[{a},]", f"m[{a}, {b},]", f"f({a}, {b},)", f"({a}, {b},)", f"f({a}, k={b},)", f"v[({a},)]", f"m[({a}, {b},)]"]
     for nm in KEYWORDISH:
         out += [nm, f"{nm} + 1", f"{a} * {nm}", f"-{nm}", f"f({nm})", f"{a} if {nm} else {b}", f"{nm} and {a}", f"not {nm}"]
     for lit in LITERALS[21:]:
